@@ -82,7 +82,7 @@ def CtxUpdate.apply (s : Session) : CtxUpdate → Session
   | .setSchema sc Option.none => { s with schema := some sc, schemaSet := true }
   | .setSchema sc (some db) => { s with database := some db, databaseSet := true, schema := some sc, schemaSet := true }
   | .dropped true ident => if s.database = some ident then { s with database := Option.none, schema := Option.none } else s
-  | .dropped false ident => if s.schema = some ident then { s with schema := Option.none } else s
+  | .dropped false ident => if s.schema = some ident then { s with schema := Option.none, schemaSet := false } else s
 
 /-- one `_execute` call: what the pre-checks look at, the SQL sent to DuckDB inside the translating `try`,
     the bookkeeping after it, and the follow-up statements sent *outside* the `try` (info-schema creation for
